@@ -16,6 +16,7 @@ import random
 import shutil
 import signal
 import subprocess
+import threading
 import time
 
 from .. import tlc
@@ -420,6 +421,100 @@ def cli_watch_cases(v, wd, rip, ids=None):
     v.cov["cli_watch_scripts"] = n_run
 
 
+def shutdown_cases(v, wd, rip, reps=2):
+    """A real `rip serve` with a request in flight receives SIGTERM and a second `rip serve` is started meanwhile: as long as
+    the first process lives, lock.json names it and the second one does not become the authority (Authority.tla: the role is
+    given up by the owner's LAST step; the drain of in-flight requests belongs to the owner's life)."""
+    import urllib.request
+    for rep in range(reps):
+        inflight_s = (1.6, 0.9)[rep % 2]
+        root = os.path.join(wd, f"shutdown-{rep}")
+        data, ws = os.path.join(root, "data"), os.path.join(root, "ws")
+        os.makedirs(data)
+        os.makedirs(ws)
+        lockf, metaf = os.path.join(data, "authority", "lock.json"), os.path.join(data, "authority", "meta.json")
+        e = dict(os.environ, RIP_DATA_DIR=data, RIP_WORKSPACE_ROOT=ws, RIP_SERVER_ADDR="127.0.0.1:0", RUST_BACKTRACE="0")
+        for k in ("RIP_OPENRESPONSES_ENDPOINT", "RIP_OPENRESPONSES_API_KEY"):
+            e.pop(k, None)
+        a = subprocess.Popen([rip, "serve"], env=e, stdout=subprocess.DEVNULL, stderr=subprocess.DEVNULL)
+        b = None
+        case = {"engine": "shutdown", "rep": rep}
+        try:
+            ep = None
+            for _ in range(400):
+                try:
+                    ep = json.load(open(metaf))["endpoint"]
+                    break
+                except Exception:
+                    time.sleep(0.025)
+            if not ep:
+                v.drift({"case": f"shutdown-{rep}", "note": "rip serve did not advertise an endpoint within 10 s"})
+                continue
+
+            def post(path, body):
+                rq = urllib.request.Request(ep + path, data=json.dumps(body).encode(), headers={"content-type": "application/json"}, method="POST")
+                return json.loads(urllib.request.urlopen(rq, timeout=5).read() or b"{}")
+            sid = post("/sessions", {}).get("session_id")
+            post(f"/sessions/{sid}/input", {"input": json.dumps({"tool": "bash", "args": {"command": f"sleep {inflight_s}"}})})
+            # an open event stream keeps a request in flight through the drain
+
+            def reader():
+                try:
+                    urllib.request.urlopen(ep + f"/sessions/{sid}/events", timeout=6).read()
+                except Exception:
+                    pass
+            th = threading.Thread(target=reader, daemon=True)
+            th.start()
+            time.sleep(0.3)
+            a.send_signal(signal.SIGTERM)
+            t_term = time.time()
+            gone_at, foreign, b_meta_while_a_alive = None, None, None
+            while time.time() - t_term < 5.0:
+                if b is None and time.time() - t_term >= 0.1:
+                    b = subprocess.Popen([rip, "serve"], env=e, stdout=subprocess.DEVNULL, stderr=subprocess.DEVNULL)
+                alive = a.poll() is None
+                try:
+                    lk = json.load(open(lockf))
+                except Exception:
+                    lk = None
+                if alive:
+                    if (lk is None or lk.get("pid") != a.pid):
+                        if gone_at is None:
+                            gone_at, foreign = time.time(), (lk or {}).get("pid")
+                    else:
+                        gone_at = None
+                    try:
+                        m = json.load(open(metaf))
+                        if b is not None and m.get("pid") == b.pid and b_meta_while_a_alive is None:
+                            b_meta_while_a_alive = time.time() - t_term
+                    except Exception:
+                        pass
+                    # the owner's last steps (drop the files, return from main) take milliseconds; 300 ms of life after the
+                    # lock stopped naming it is not "about to exit"
+                    if gone_at is not None and time.time() - gone_at > 0.3:
+                        v.violation(f"`rip serve` (pid {a.pid}) with a request in flight was still running {time.time() - gone_at:.2f} s after lock.json stopped naming it "
+                                    f"({'absent' if foreign is None else 'pid ' + str(foreign)}) following SIGTERM"
+                                    + (f"; a second `rip serve` advertised itself as the authority {b_meta_while_a_alive:.2f} s after the signal while the first was alive" if b_meta_while_a_alive else ""),
+                                    case)
+                        break
+                else:
+                    break
+                time.sleep(0.01)
+            v.add_eval({"shutdown": rep, "inflight_s": inflight_s}, True)
+        except Exception as ex:
+            v.drift({"case": f"shutdown-{rep}", "note": f"could not drive the server: {ex}"})
+        finally:
+            for pr in (a, b):
+                if pr is not None:
+                    try:
+                        pr.kill()
+                    except Exception:
+                        pass
+                    pr.wait()
+            shutil.rmtree(root, ignore_errors=True)
+    v.cov["shutdown_with_request_in_flight"] = reps
+
+
 def cli_cases(v, wd, rip):
     """`rip tasks list` against a store left behind by a dead authority must start an authority and answer."""
     started = []
@@ -537,6 +632,7 @@ def run(tier, seed):
     # ---- the real client binary: waiting on a scripted live authority (both tiers), leftover states end to end (thorough)
     rip = build_rip()
     cli_watch_cases(v, wd, rip, ids=None if thorough else QUICK_SCRIPTS)
+    shutdown_cases(v, wd, rip, reps=4 if thorough else 2)
     if thorough:
         cli_cases(v, wd, rip)
     g = tlc.run("GenAuthority", "GenAuthority_t.cfg", workers=4, timeout=1200, heap="8g")
